@@ -246,6 +246,9 @@ def sec_jax(chk):
         chisq = sum(sum(a * a + b * b for a, b in zip(xr[s], xi[s])) / (2 * N) for s in range(S)) / S
         _eq(chk, f"jax: samples={S} complex: reduced_chisq[0] == sample average of sum |r|^2 / (2 size)", sp.expand(jaxsym.to_obj(np.asarray(st.reduced_chisq))[0]), sp.expand(chisq))
         chk.obligation(f"jax: samples={S} complex: ndof == 2 size", "discharged" if int(np.asarray(st.ndof)) == 2 * N else "refuted", backend="identity")
+        # the mean of complex entries is their plain (complex) average over the entries -- the entry count, not the number of real degrees of freedom
+        cmean = sum(sum(a + sp.I * b for a, b in zip(xr[s], xi[s])) / N for s in range(S)) / S
+        _eq(chk, f"jax: samples={S} complex: mean[0] == sample average of sum r / size (as for real input)", sp.expand(jaxsym.to_obj(np.asarray(st.mean))[0]), sp.expand(cmean))
 
 
 def sec_agreement(chk):
